@@ -182,6 +182,7 @@ type inst struct {
 	depth   int
 	names   map[string]string         // canonical name -> source name (for the comment in the generated file)
 	declPos map[*ast.Object]token.Pos // first occurrence = declaration
+	feed    map[*ast.Object]bool      // skeleton.go feeding(): locals whose value reaches a guard / index on peer bytes
 }
 
 // instantiate makes a private copy of the function. keep: objects for which the caller decides the name
